@@ -73,6 +73,11 @@ def make_type(spec: str):
     return t
 
 
+import re as _re
+
+_TAGGED = _re.compile(r"^\$(MyInt|HTTPStatus):-?[0-9]{1,4}$")
+
+
 class MyInt(int):
     """An int subclass (what enum.IntEnum members, numpy ints, ... are to isinstance)."""
 
@@ -80,12 +85,11 @@ class MyInt(int):
 def revive(v):
     if v == "$object":
         return object()
-    if isinstance(v, str) and v.startswith("$HTTPStatus:"):
+    if isinstance(v, str) and _TAGGED.match(v):
         import http
 
-        return http.HTTPStatus(int(v.split(":")[1]))
-    if isinstance(v, str) and v.startswith("$MyInt:"):
-        return MyInt(int(v.split(":")[1]))
+        kind, num = v[1:].split(":")
+        return http.HTTPStatus(int(num)) if kind == "HTTPStatus" else MyInt(int(num))
     if isinstance(v, list):
         return [revive(x) for x in v]
     if isinstance(v, tuple):
@@ -137,7 +141,7 @@ def is_plain_int(x) -> bool:
 
 def norm(v):
     """Case value as the model should see it: int subclasses are integers."""
-    if isinstance(v, str) and (v.startswith("$HTTPStatus:") or v.startswith("$MyInt:")):
+    if isinstance(v, str) and _TAGGED.match(v):
         return int(v.split(":")[1])
     return v
 
